@@ -31,10 +31,14 @@ impl IoDriver {
     }
 
     pub(crate) async fn open(&self, path: impl AsRef<Path>) -> IOResult<File> {
+        #[cfg(feature = "verif")]
+        crate::verif::tap::path_op(crate::verif::tap::Kind::Open, path.as_ref(), None)?;
         File::from_file(path, |f| f.create(false).append(true).read(true)).await
     }
 
     pub(crate) async fn create(&self, path: impl AsRef<Path>) -> IOResult<File> {
+        #[cfg(feature = "verif")]
+        crate::verif::tap::path_op(crate::verif::tap::Kind::Create, path.as_ref(), None)?;
         File::from_file(path, |f| f.create(true).write(true).read(true)).await
     }
 }
@@ -51,6 +55,8 @@ pub(crate) struct File {
 
 #[derive(Debug)]
 struct FileInner {
+    #[cfg(feature = "verif")]
+    verif: crate::verif::tap::FileTag,
     std_file: StdFile,
     size: AtomicU64,
     synced_size: AtomicU64
@@ -84,6 +90,8 @@ impl File {
             Self::inplace_sync_call(move || {
                 let offset = file_inner.size.fetch_add(len, Ordering::SeqCst);
                 let (res, data) = c.create(offset);
+                #[cfg(feature = "verif")]
+                let _tap = file_inner.verif.begin(crate::verif::tap::Kind::Write, offset, crate::verif::tap::segs(&res))?;
                 Self::write_data(&file_inner.std_file, offset, res)?;
                 Ok(data)
             })
@@ -91,6 +99,8 @@ impl File {
             Self::background_sync_call(move || {
                 let offset = file_inner.size.fetch_add(len, Ordering::SeqCst);
                 let (res, data) = c.create(offset);
+                #[cfg(feature = "verif")]
+                let _tap = file_inner.verif.begin(crate::verif::tap::Kind::Write, offset, crate::verif::tap::segs(&res))?;
                 Self::write_data(&file_inner.std_file, offset, res)?;
                 Ok(data)
             })
@@ -113,11 +123,15 @@ impl File {
         if Self::can_run_inplace(buf.len() as u64) {
             Self::inplace_sync_call(move || {
                 let offset = file_inner.size.fetch_add(buf.len() as u64, Ordering::SeqCst);
+                #[cfg(feature = "verif")]
+                let _tap = file_inner.verif.begin(crate::verif::tap::Kind::Write, offset, vec![buf.clone()])?;
                 file_inner.std_file.write_all_at(&buf, offset)
             })
         } else {
             Self::background_sync_call(move || {
                 let offset = file_inner.size.fetch_add(buf.len() as u64, Ordering::SeqCst);
+                #[cfg(feature = "verif")]
+                let _tap = file_inner.verif.begin(crate::verif::tap::Kind::Write, offset, vec![buf.clone()])?;
                 file_inner.std_file.write_all_at(&buf, offset)
             })
             .await
@@ -126,6 +140,8 @@ impl File {
 
     pub(crate) async fn write_all_at(&self, offset: u64, buf: Bytes) -> IOResult<()> {
         debug_assert!(offset + buf.len() as u64 <= self.size());
+        #[cfg(feature = "verif")]
+        self.inner.verif.note(crate::verif::tap::Kind::WriteAt, offset, vec![buf.clone()], buf.len() as u64)?;
         let file_inner = self.inner.clone();
         if Self::can_run_inplace(buf.len() as u64) {
             Self::inplace_sync_call(move || file_inner.std_file.write_all_at(&buf, offset))
@@ -151,6 +167,8 @@ impl File {
     }
 
     pub(crate) async fn read_exact_at(&self, mut buf: BytesMut, offset: u64) -> IOResult<BytesMut> {
+        #[cfg(feature = "verif")]
+        self.inner.verif.note(crate::verif::tap::Kind::Read, offset, Vec::new(), buf.len() as u64)?;
         let file_inner = self.inner.clone();
 
         Ok(if Self::can_run_inplace(buf.len() as u64) {
@@ -166,6 +184,8 @@ impl File {
         let size = self.size();
         Self::background_sync_call(
             move || {
+               #[cfg(feature = "verif")]
+               let _tap = file_inner.verif.begin(crate::verif::tap::Kind::Sync, size, Vec::new())?;
                file_inner.std_file.sync_all()?;
                file_inner.synced_size.fetch_max(size, Ordering::SeqCst);
                Ok(())
@@ -218,6 +238,8 @@ impl File {
         F: FnOnce() -> R + Send + 'static,
         R: Send + 'static,
     {
+        #[cfg(feature = "verif")]
+        let f = crate::verif::tap::track(f);
         tokio::task::spawn_blocking(move || f())
             .await
             .expect("spawned blocking task failed")
@@ -260,6 +282,8 @@ impl File {
 
         let file = Self {
             inner: Arc::new(FileInner { 
+                #[cfg(feature = "verif")]
+                verif: crate::verif::tap::FileTag::from_fd(std_file.as_raw_fd()),
                 std_file, 
                 size,
                 synced_size
